@@ -290,7 +290,7 @@ def _pystr_validation(ctx):
         s = "".join(rng.choice(["a", "\n", "b", "\n", "é"]) for _ in range(n))
         c = rng.choice(["\n", "a", "z"])
         lo, hi = bound(n), bound(n)
-        op = ("find", "rfind", "count", "slice", "item", "len")[k % 6]
+        op = ("find", "rfind", "count", "slice", "item", "len", "startswith", "in")[k % 8]
         if op in ("find", "rfind", "count"):
             lines.append(sx(Sym("pystr"), Sym(op), s, c, b(lo), b(hi)))
             impl.append(sx(getattr(s, op)(c, lo, hi)))
@@ -305,6 +305,17 @@ def _pystr_validation(ctx):
                 impl.append(sx(s[i]))
             except IndexError:
                 impl.append(sx(Sym("IndexError")))
+        elif op == "startswith":
+            pfx = rng.choice(["", "a", "\n", "ab", s[max(0, (lo or 0)):][:2], s[:1]])
+            c = pfx
+            hi = None
+            lines.append(sx(Sym("pystr"), Sym(op), s, pfx, b(lo)))
+            impl.append(sx(Sym("T" if (s.startswith(pfx) if lo is None else s.startswith(pfx, lo)) else "F")))
+        elif op == "in":
+            x = rng.choice(["a", "\n", "z", "é"])
+            c = x
+            lines.append(sx(Sym("pystr"), Sym(op), x, s))
+            impl.append(sx(Sym("T" if x in set(s) else "F")))
         else:
             lines.append(sx(Sym("pystr"), Sym(op), s))
             impl.append(sx(len(s)))
